@@ -78,7 +78,7 @@ func scanScenarios(tier string) []scanScenario {
 			{true, nameWith("g", 5, pat0^16, 0)},      // collides with init[0] in the low 4 bits -> 32 buckets
 			{true, nameWith("h", 6, pat3^32, 0)},      // collides with init[3] in the low 5 bits -> 64 buckets
 			{true, nameWith("i", 4, 1, 0)},            // lands in a fresh bucket, no resize
-			{false, init[1]}, {false, init[4]}, {false, init[0]},
+			{false, init[1]}, {false, init[4]}, {false, init[0]}, {false, "*"},
 		}
 		if thorough {
 			g.MaxMut = 3
@@ -104,7 +104,7 @@ func scanScenarios(tier string) []scanScenario {
 		s.Pool = []scanMut{
 			{false, b},  // removal runs the check: 64 -> 32 (c,d still need 32)
 			{false, d},  // a later removal can take it to 16
-			{false, others[0]}, {true, b}, {true, nameWith("x", 6, 33, 0)},
+			{false, others[0]}, {true, b}, {true, nameWith("x", 6, 33, 0)}, {false, "*"},
 		}
 		if thorough {
 			s.MaxMut = 3
@@ -127,10 +127,11 @@ func scanScenarios(tier string) []scanScenario {
 			}
 			p.Pool = []scanMut{{true, "z1"}, {true, "z2"}}
 			if n > 0 {
-				p.Pool = append(p.Pool, scanMut{false, els[0]}, scanMut{false, els[n/2]})
+				p.Pool = append(p.Pool, scanMut{false, els[0]}, scanMut{false, els[n/2]}, scanMut{false, "*"})
 			}
 			if !thorough && n > 17 {
-				p.MaxMut = 0
+				p.MaxMut = 1
+				p.Pool = []scanMut{{false, "*"}}
 			}
 			out = append(out, p)
 			if n >= 5 && n <= 17 {
@@ -345,6 +346,26 @@ func runScanPlan(sc *scanScenario, pl scanPlan) (res scanResult) {
 			// mutations scheduled after this call
 			for mi < len(pl.Muts) && pl.Muts[mi].At == calls {
 				m := pl.Muts[mi].Mut
+				if m.Name == "*" {
+					// remove everything: the collection is empty (hash / set: the key is gone) while an
+					// iteration is open
+					if len(present) == 0 {
+						res = scanResult{Status: "skip"}
+						done = true
+						return
+					}
+					var all []string
+					for n := range present {
+						all = append(all, n)
+					}
+					sort.Strings(all)
+					for _, n := range all {
+						rem(n)
+					}
+					lastMutCall = calls
+					mi++
+					continue
+				}
 				if m.Add == present[m.Name] {
 					res = scanResult{Status: "skip"} // not applicable in this history
 					done = true
